@@ -166,6 +166,9 @@ func runResolveCase(c *expCase) []*resObs {
 	var aims []aim
 	for i, a := range c.Nodes {
 		aims = append(aims, aim{i + 1, a.Kind, spellRef(cc.urls[0], cc.urls[a.Doc], cc.paths[i+1], c.Rot+i, c.Spell == "varied")})
+		if c.Spell == "varied" {
+			aims = append(aims, aim{i + 1, a.Kind, spellRef(cc.urls[0], cc.urls[a.Doc], cc.paths[i+1], 0, false)})
+		}
 	}
 	// references that designate nothing: a missing name in every document, a missing document
 	for d := range cc.docs {
@@ -187,9 +190,10 @@ func runResolveCase(c *expCase) []*resObs {
 			more, kind = [][]string{{"schema", "properties", "nope"}}, "s"
 		case "i":
 			more, kind = [][]string{{"get", "responses", "404"}, {"get", "responses", "default"}, {"put", "responses", "200"}}, "r"
-			for _, m := range [][]string{{"parameters", "9"}, {"get", "parameters", "3"}} {
+			for k, m := range [][]string{{"parameters", "9"}, {"get", "parameters", "3"}} {
 				toks := append(append([]string{}, base...), m...)
-				aims = append(aims, aim{0, "p", spellRef(cc.urls[0], cc.urls[a.Doc], toks, c.Rot+i, c.Spell == "varied")})
+				aims = append(aims, aim{0, "p", spellRef(cc.urls[0], cc.urls[a.Doc], toks, c.Rot+i+k, c.Spell == "varied")})
+				aims = append(aims, aim{0, "p", spellRef(cc.urls[0], cc.urls[a.Doc], toks, 0, false)})
 			}
 		}
 		for _, m := range more {
@@ -202,7 +206,9 @@ func runResolveCase(c *expCase) []*resObs {
 				}
 			}
 			if !exists {
-				aims = append(aims, aim{0, kind, spellRef(cc.urls[0], cc.urls[a.Doc], toks, c.Rot+i, c.Spell == "varied")})
+				// once in the plainest spelling (fragment-only inside the root: the typed root is used), once varied
+				aims = append(aims, aim{0, kind, spellRef(cc.urls[0], cc.urls[a.Doc], toks, 0, false)})
+				aims = append(aims, aim{0, kind, spellRef(cc.urls[0], cc.urls[a.Doc], toks, c.Rot+i+len(toks), c.Spell == "varied")})
 			}
 		}
 	}
